@@ -338,6 +338,70 @@ Proof.
   rewrite (src_iprange_to_globs_not4_ok to_cidrs 6 _ 6 _) by lia. reflexivity.
 Qed.
 
+(* ---------------------------------------------------------------- the IPGlob class *)
+(* the state of an IPGlob object: the two IPAddress objects _start, _end (IPv4) and the slot _glob (None = unset) *)
+Definition st_of (o : ipglob) : (Z * Z) * (Z * Z) * option string := ((4, g_start o), (4, g_end o), g_glob o).
+Definition obj_of (s e : Z * Z) (g : option string) : ipglob := {| g_start := snd s; g_end := snd e; g_glob := g |}.
+
+(* what C05 says of the translated iprange_to_cidrs on IPv4 bounds: IPv4 blocks inside the address space *)
+Definition to_cidrs_wf : Prop :=
+  forall s e nets, src_iprange_to_cidrs (py_net_of_addr (4, s)) (py_net_of_addr (4, e)) = Ok nets -> Forall net4_ok nets.
+
+Lemma src_ipglob_get_ok s e g : src_IPGlob_get_glob s e g = ipglob_str (obj_of s e g).
+Proof. destruct g; reflexivity. Qed.
+
+Lemma src_ipglob_str_ok s e g : src_IPGlob_str s e g = ipglob_str (obj_of s e g).
+Proof. destruct g; reflexivity. Qed.
+
+Lemma py_index_head {A} (x : A) r : py_index (x :: r) 0 = Ok x.
+Proof. apply py_index_nth; [lia|reflexivity]. Qed.
+
+Lemma first_glob gl : py_index gl 0 = first_of gl.
+Proof. destruct gl as [|g r]; [reflexivity|apply py_index_head]. Qed.
+
+(* the setter: success = the new state, failure = the exception (the model also says which state a failing call leaves behind:
+   the generated definition does not) *)
+Lemma src_ipglob_set_ok s e g ipglob : to_cidrs_wf ->
+  src_IPGlob_set_glob s e g ipglob =
+  match set_glob src_to_cidrs (obj_of s e g) ipglob with (o', None) => Ok (st_of o') | (_, Some ex) => Raise ex end.
+Proof.
+  intros W. unfold src_IPGlob_set_glob, set_glob. rewrite src_glob_to_iptuple_ok.
+  destruct (glob_to_iptuple ipglob) as [[a b]|]; [|reflexivity]. cbn [omap bind fst snd].
+  rewrite (src_iprange_to_globs_v4_ok a b (W a b)).
+  destruct (iprange_to_globs src_to_cidrs (4, a) (4, b)) as [gl|]; [|reflexivity]. cbn [bind]. rewrite first_glob.
+  destruct (first_of gl); reflexivity.
+Qed.
+
+Lemma src_ipglob_init_ok ipglob : to_cidrs_wf -> src_IPGlob_init ipglob = omap st_of (ipglob_new src_to_cidrs ipglob).
+Proof.
+  intros W. unfold src_IPGlob_init, ipglob_new. rewrite src_glob_to_iptuple_ok.
+  destruct (glob_to_iptuple ipglob) as [[a b]|]; [|reflexivity]. cbn [omap bind fst snd]. unfold py_iprange_init. cbn [fst snd].
+  change (negb (4 =? 4)) with false. cbv iota. destruct (a >? b); [reflexivity|]. cbn [bind].
+  rewrite (src_iprange_to_globs_v4_ok a b (W a b)).
+  destruct (iprange_to_globs src_to_cidrs (4, a) (4, b)) as [gl|]; [|reflexivity]. cbn [bind]. rewrite first_glob.
+  destruct (first_of gl) as [g|]; [|reflexivity]. cbn [bind].
+  rewrite (src_ipglob_set_ok (4, a) (4, b) None g W). unfold obj_of. cbn [fst snd].
+  destruct (set_glob src_to_cidrs _ g) as [o' [ex|]]; [reflexivity|]. destruct o'; reflexivity.
+Qed.
+
+Lemma src_ipglob_getstate_ok s e g : fst s = 4 -> src_IPGlob_getstate s e g = ipglob_getstate (obj_of s e g).
+Proof. intros H. unfold src_IPGlob_getstate, py_iprange_getstate, ipglob_getstate, obj_of. cbn [g_start g_end]. rewrite H. reflexivity. Qed.
+
+Lemma src_ipglob_setstate_ok st : to_cidrs_wf -> src_IPGlob_setstate st = omap st_of (ipglob_setstate src_to_cidrs st).
+Proof.
+  intros W. destruct st as [[s e] ver]. unfold src_IPGlob_setstate, ipglob_setstate, py_iprange_setstate, addr_of_int_ver.
+  destruct (ver =? 4) eqn:E4.
+  - destruct (in_range_w 32 s); [|reflexivity]. cbn [bind]. destruct (in_range_w 32 e); [|reflexivity]. cbn [bind fst snd].
+    rewrite (src_iprange_to_globs_v4_ok s e (W s e)).
+    destruct (iprange_to_globs src_to_cidrs (4, s) (4, e)) as [gl|]; [|reflexivity]. cbn [bind]. rewrite first_glob.
+    destruct (first_of gl) as [g|]; [|reflexivity]. cbn [bind].
+    rewrite (src_ipglob_set_ok (4, s) (4, e) None g W). unfold obj_of. cbn [fst snd].
+    destruct (set_glob src_to_cidrs _ g) as [o' [ex|]]; [reflexivity|]. destruct o'; reflexivity.
+  - destruct (ver =? 6); [|reflexivity].
+    destruct (in_range_w 128 s); [|reflexivity]. cbn [bind]. destruct (in_range_w 128 e); [|reflexivity]. cbn [bind fst snd].
+    rewrite (src_iprange_to_globs_not4_ok src_to_cidrs 6 s 6 e) by lia. reflexivity.
+Qed.
+
 (* everything the C17 source tie states (Props/C17_src.v) *)
 Lemma C17_tie_ok :
   (forall token, src__octet_value token = oo (octet_value token) ValueError) /\
@@ -357,10 +421,20 @@ Lemma C17_tie_ok :
                    Forall net4_ok nets) ->
      src_cidr_to_glob {| nver := 4; nval := v; nplen := p |} = cidr_to_glob src_to_cidrs 4 v p) /\
   (forall to_cidrs v p, 0 <= net_first 128 v p <= net_last 128 v p -> net_last 128 v p <= max_int 6 ->
-     src_cidr_to_glob {| nver := 6; nval := v; nplen := p |} = cidr_to_glob to_cidrs 6 v p).
+     src_cidr_to_glob {| nver := 6; nval := v; nplen := p |} = cidr_to_glob to_cidrs 6 v p) /\
+  (forall s e g, src_IPGlob_get_glob s e g = ipglob_str (obj_of s e g)) /\
+  (forall s e g, src_IPGlob_str s e g = ipglob_str (obj_of s e g)) /\
+  (forall s e g ipglob, to_cidrs_wf ->
+     src_IPGlob_set_glob s e g ipglob =
+     match set_glob src_to_cidrs (obj_of s e g) ipglob with (o', None) => Ok (st_of o') | (_, Some ex) => Raise ex end) /\
+  (forall ipglob, to_cidrs_wf -> src_IPGlob_init ipglob = omap st_of (ipglob_new src_to_cidrs ipglob)) /\
+  (forall s e g, fst s = 4 -> src_IPGlob_getstate s e g = ipglob_getstate (obj_of s e g)) /\
+  (forall st, to_cidrs_wf -> src_IPGlob_setstate st = omap st_of (ipglob_setstate src_to_cidrs st)).
 Proof.
   split; [exact src_octet_value_ok|]. split; [exact src_valid_glob_loop_ok|]. split; [exact src_valid_glob_ok|].
   split; [exact src_glob_to_iptuple_ok|]. split; [exact src_glob_to_iprange_ok|]. split; [exact src_i2g_ok|].
   split; [exact src_iprange_to_globs_v4_ok|]. split; [exact src_iprange_to_globs_not4_ok|].
-  split; [exact src_glob_to_cidrs_ok|]. split; [exact src_cidr_to_glob_v4_ok|exact src_cidr_to_glob_v6_ok].
+  split; [exact src_glob_to_cidrs_ok|]. split; [exact src_cidr_to_glob_v4_ok|]. split; [exact src_cidr_to_glob_v6_ok|].
+  split; [exact src_ipglob_get_ok|]. split; [exact src_ipglob_str_ok|]. split; [exact src_ipglob_set_ok|].
+  split; [exact src_ipglob_init_ok|]. split; [exact src_ipglob_getstate_ok|exact src_ipglob_setstate_ok].
 Qed.
